@@ -104,4 +104,76 @@ theorem clamp64_id {n : Int} (h1 : int64Min ≤ n) (h2 : n ≤ int64Max) : clamp
   unfold clamp64
   rw [if_neg (by omega), if_neg (by omega)]
 
+/-! ### `atoll` on arbitrary stored strings: base 10 only -/
+
+/-- a decimal digit is neither white space nor a sign -/
+theorem digit_class : ∀ n, n < 256 → isDigitC (UInt8.ofNat n) = true →
+    isSpaceC (UInt8.ofNat n) = false ∧ (UInt8.ofNat n == 45) = false ∧ (UInt8.ofNat n == 43) = false := by decide +kernel
+
+theorem digit_not_space_sign {d : UInt8} (hd : isDigitC d = true) :
+    isSpaceC d = false ∧ (d == 45) = false ∧ (d == 43) = false := by
+  have := digit_class d.toNat d.toNat_lt
+  simpa [hd] using this
+
+/-- the digit loop stops at the first byte that is not a decimal digit (letters, `x`, `e`, `.`,
+    blanks, the terminator …) and yields the base-10 value of the digits before it -/
+theorem atollDigits_stop (ds : List UInt8) (hd : ∀ d ∈ ds, isDigitC d = true) (c : UInt8) (hc : isDigitC c = false)
+    (rest : List UInt8) (a : Nat) : atollDigits (ds ++ c :: rest) a = .ok (accum a ds) := by
+  induction ds generalizing a with
+  | nil => simp [atollDigits, accum, hc]
+  | cons d ds ih =>
+    simp only [List.cons_append, atollDigits, hd d (List.mem_cons_self ..), if_true]
+    rw [ih (fun x hx => hd x (List.mem_cons_of_mem _ hx))]
+    rfl
+
+/-- leading white space (blank, \t \n \v \f \r) is skipped -/
+theorem atoll_skip_ws (ws : List UInt8) (hws : ∀ w ∈ ws, isSpaceC w = true) (rest : List UInt8) :
+    atoll (ws ++ rest) = atoll rest := by
+  induction ws with
+  | nil => rfl
+  | cons w ws ih =>
+    simp only [List.cons_append, atoll, hws w (List.mem_cons_self ..), if_true]
+    exact ih (fun x hx => hws x (List.mem_cons_of_mem _ hx))
+
+/-- `atoll` reads: white space, one optional sign, decimal digits; it stops at the first other
+    byte; the value saturates at the 64-bit limits. No other base, no exponent. -/
+theorem atoll_base10 (ws ds : List UInt8) (c : UInt8) (rest : List UInt8)
+    (hws : ∀ w ∈ ws, isSpaceC w = true) (hd : ∀ d ∈ ds, isDigitC d = true) (hc : isDigitC c = false) :
+    atoll (ws ++ 45 :: ds ++ c :: rest) = .ok (clamp64 (-(accum 0 ds : Nat))) ∧
+    atoll (ws ++ 43 :: ds ++ c :: rest) = .ok (clamp64 (accum 0 ds : Nat)) ∧
+    (ds ≠ [] → atoll (ws ++ ds ++ c :: rest) = .ok (clamp64 (accum 0 ds : Nat))) ∧
+    (isSpaceC c = false → (c == 45) = false → (c == 43) = false → atoll (ws ++ c :: rest) = .ok 0) := by
+  have h45 : isSpaceC 45 = false := by decide
+  have h43 : isSpaceC 43 = false := by decide
+  refine ⟨?_, ?_, ?_, ?_⟩
+  · rw [List.append_assoc, atoll_skip_ws ws hws]
+    simp only [List.cons_append, atoll, h45, Bool.false_eq_true, if_false, atollSign, beq_self_eq_true, if_true]
+    rw [atollDigits_stop ds hd c hc rest 0]
+    rfl
+  · rw [List.append_assoc, atoll_skip_ws ws hws]
+    have hne : ((43 : UInt8) == 45) = false := by decide
+    simp only [List.cons_append, atoll, h43, Bool.false_eq_true, if_false, atollSign, hne, beq_self_eq_true, if_true]
+    rw [atollDigits_stop ds hd c hc rest 0]
+    rfl
+  · intro hne
+    obtain ⟨d, r, hds⟩ : ∃ d r, ds = d :: r := by
+      cases ds with
+      | nil => exact absurd rfl hne
+      | cons d r => exact ⟨d, r, rfl⟩
+    have hdd := digit_not_space_sign (hd d (by rw [hds]; exact List.mem_cons_self ..))
+    rw [List.append_assoc, atoll_skip_ws ws hws, hds]
+    simp only [List.cons_append, atoll, hdd.1, Bool.false_eq_true, if_false, atollSign, hdd.2.1, hdd.2.2]
+    have := atollDigits_stop ds hd c hc rest 0
+    rw [hds] at this
+    simp only [List.cons_append] at this
+    rw [this]
+    rfl
+  · intro h1 h2 h3
+    rw [atoll_skip_ws ws hws]
+    simp only [atoll, h1, Bool.false_eq_true, if_false, atollSign, h2, h3]
+    have := atollDigits_stop [] (fun _ hx => (by cases hx)) c hc rest 0
+    simp only [List.nil_append] at this
+    rw [this]
+    rfl
+
 end Qlibc.Dec
